@@ -211,6 +211,7 @@ def handle (line : String) : String :=
   | "history" :: rest => Cli.Wire.handleHistory rest
   | "list" :: rest => Cli.Wire.handleList rest
   | "extract" :: rest => Cli.Wire.handleExtract rest
+  | "tree.expected" :: rest => Cli.Wire.handleTree rest
   | ["archive.read.stream", h] =>
     match ofHex h with
     | some b => Canon.readS (readArchiveStream b)
